@@ -346,6 +346,10 @@ def units(tier):
           Unit("FitProperties.restore", unit_restore)]
     from . import indent_units as IU
     us += IU.units_for("C03")
+    # apply_preprocessing relies on preproc.apply to restart from the raw data for EVERY pipeline (contract shared
+    # with C06)
+    from . import c06
+    us.append(Unit("preproc.apply", c06.unit_apply_options, prop="C03"))
     if tier == "thorough" and not os.environ.get("VF_NO_CANARIES") and str(REPO) == "/repo":
         us.append(Unit("selftest.canaries", unit_canaries))
     return us
